@@ -606,3 +606,183 @@ def all_one_edit_variants(tree):
         else:
             out.append(('childless_node', t))
     return out
+
+
+# --------------------------------------------------------------------------
+# isolation: the tree object must not share state with the caller's dict nor
+# with the containers it hands out (the Lean model is a value: immutable by
+# construction; its value semantics is the specification of the deepcopy)
+# --------------------------------------------------------------------------
+
+def public_snapshot(tt):
+    """every public answer of a TaxonomyTree as plain, freshly built Python
+    data; an exception is part of the answer"""
+    try:
+        h = list(tt.hierarchy)
+        leaf = tt.leaf_level
+        snap = {'hierarchy': h, 'leaf_level': leaf,
+                'all_leaves': list(tt.all_leaves),
+                'n_leaves': tt.n_leaves,
+                'all_parents': [None if p is None else tuple(p)
+                                for p in tt.all_parents],
+                'leaf_to_cells': {k: list(v)
+                                  for k, v in tt.leaf_to_cells.items()},
+                'nodes': {}, 'children': {}, 'parents': {}, 'rows': {},
+                'root_children': list(tt.children(None, None)),
+                'siblings': [tuple(x) for x in tt.siblings]}
+        as_leaves = tt.as_leaves
+        snap['as_leaves'] = {l: {n: list(v) for n, v in as_leaves[l].items()}
+                             for l in as_leaves}
+        for l in h:
+            snap['nodes'][l] = list(tt.nodes_at_level(l))
+            for n in snap['nodes'][l]:
+                snap['children'][(l, n)] = list(tt.children(l, n))
+                snap['parents'][(l, n)] = dict(tt.parents(l, n))
+        for n in snap['all_leaves']:
+            snap['rows'][n] = list(tt.rows_for_leaf(n))
+        pairs = {}
+        for p in list(tt.all_parents) + [(leaf, n) for n in snap['all_leaves']]:
+            pairs[p] = sorted(tuple(r) for r in tt.leaves_to_compare(p))
+        snap['pairs'] = pairs
+        snap['to_str'] = json.loads(tt.to_str())
+        snap['to_str_nocells'] = json.loads(tt.to_str(drop_cells=True))
+        snap['flatten'] = {k: v for k, v in tt.flatten()._data.items()
+                           if k not in IGNORABLE}
+        return snap
+    except Exception as e:
+        return {'raises': '%s: %s' % (type(e).__name__, str(e)[:200])}
+
+
+def snapshot_diff(a, b):
+    """first key on which two snapshots differ (None = equal)"""
+    if a == b:
+        return None
+    for k in sorted(set(a) | set(b), key=str):
+        if a.get(k) != b.get(k):
+            return k
+    return '?'
+
+
+def apply_in_place(d, target):
+    """make the caller-owned dict `d` equal to `target` by IN-PLACE edits of
+    the containers it already holds (nested dicts and lists keep their
+    identity wherever the key survives)"""
+    for k in list(d.keys()):
+        if k not in target:
+            del d[k]
+    for k, v in target.items():
+        if k in d and isinstance(d[k], dict) and isinstance(v, dict):
+            apply_in_place(d[k], v)
+            # key order of the level dict follows the target
+            if list(d[k].keys()) != list(v.keys()):
+                items = [(kk, d[k][kk]) for kk in v.keys()]
+                d[k].clear()
+                d[k].update(items)
+        elif k in d and isinstance(d[k], list) and isinstance(v, list):
+            d[k][:] = copy.deepcopy(v)
+        else:
+            d[k] = copy.deepcopy(v)
+
+
+def returned_container_mutators(tt):
+    """(name, thunk) pairs: each thunk fetches a container from a public
+    accessor and mutates what it got"""
+    out = []
+    h = tt.hierarchy
+    leaf = tt.leaf_level
+
+    def mut_list(x):
+        x.append('zz_intruder')
+        if len(x) > 1:
+            x[0] = x[-1]
+
+    def mut_rows(x):
+        x.append(987654)
+        x.extend(list(x))
+
+    out.append(('hierarchy', lambda: mut_list(tt.hierarchy)))
+    out.append(('all_leaves', lambda: mut_list(tt.all_leaves)))
+    out.append(('all_parents', lambda: tt.all_parents.clear()))
+    out.append(('children(None,None)',
+                lambda: mut_list(tt.children(None, None))))
+    for l in h:
+        out.append(('nodes_at_level', lambda l=l: mut_list(tt.nodes_at_level(l))))
+        for n in tt.nodes_at_level(l):
+            if l == leaf:
+                out.append(('children(leaf)',
+                            lambda l=l, n=n: mut_rows(tt.children(l, n))))
+                out.append(('rows_for_leaf',
+                            lambda n=n: mut_rows(tt.rows_for_leaf(n))))
+            else:
+                out.append(('children',
+                            lambda l=l, n=n: mut_list(tt.children(l, n))))
+            out.append(('parents',
+                        lambda l=l, n=n: tt.parents(l, n).clear()))
+
+    def mut_ltc():
+        x = tt.leaf_to_cells
+        for k in x:
+            mut_rows(x[k])
+        x['zz_intruder'] = [1]
+    out.append(('leaf_to_cells', mut_ltc))
+
+    def mut_as_leaves():
+        x = tt.as_leaves
+        for l in x:
+            for n in x[l]:
+                mut_list(x[l][n])
+    out.append(('as_leaves', mut_as_leaves))
+
+    def mut_pairs():
+        for p in tt.all_parents:
+            tt.leaves_to_compare(p).clear()
+    out.append(('leaves_to_compare', mut_pairs))
+    return out
+
+
+# --------------------------------------------------------------------------
+# factories: every way a TaxonomyTree is made from a tree dict
+# --------------------------------------------------------------------------
+
+def write_stats_tree_file(path, tree_json_text):
+    """a minimal precomputed-stats HDF5 file: only the taxonomy_tree dataset"""
+    import h5py
+    with h5py.File(path, 'w') as dst:
+        dst.create_dataset('taxonomy_tree',
+                           data=tree_json_text.encode('utf-8'))
+
+
+def factory_verdict(name, tree, wd):
+    """('ok', tree object) or (error class, None) for one factory fed with
+    the tree dict; file based factories write under `wd`"""
+    from cell_type_mapper.taxonomy.taxonomy_tree import TaxonomyTree
+    with warnings.catch_warnings():
+        warnings.simplefilter('ignore')
+        try:
+            if name == 'constructor':
+                tt = TaxonomyTree(data=copy.deepcopy(tree))
+            elif name == 'from_str':
+                tt = TaxonomyTree.from_str(json.dumps(tree))
+            elif name == 'from_json_file':
+                path = wd / 'tree.json'
+                path.write_text(json.dumps(tree))
+                try:
+                    tt = TaxonomyTree.from_json_file(path)
+                finally:
+                    path.unlink(missing_ok=True)
+            elif name == 'from_precomputed_stats':
+                path = wd / 'stats.h5'
+                write_stats_tree_file(path, json.dumps(tree))
+                try:
+                    tt = TaxonomyTree.from_precomputed_stats(path)
+                finally:
+                    path.unlink(missing_ok=True)
+            else:
+                raise ValueError(name)
+            return 'ok', tt
+        except Exception as e:
+            return classify_error(e), None
+
+
+FACTORIES = ('constructor', 'from_str', 'from_json_file',
+             'from_precomputed_stats')
